@@ -48,4 +48,7 @@ def instances(build, tier, seed):
     for i in c07.data_instances('quick', fam='safe.data', safety=True):
         if len(i.bound['initializers']) == 1 or i.bound['initializers'] in ('wB', 'Bw', 'BB', 'lH'):
             L.append(i)
+    L.append(Inst('safe.subobj', 'h_subobj.c', {}, units=['type'], unwind=4, family='safe.subobj', safety=True, timeout=300,
+                  native_units=['util', 'token', 'expr', 'eval', 'decl', 'map', 'scope', 'targ', 'attr', 'stmt', 'utf', 'scan', 'pp', 'qbe', 'tree'],
+                  bound={'designator stack depth': 'symbolic 0..31'}))
     return L
